@@ -3,14 +3,10 @@
 package main
 
 import (
-	"bytes"
-	"compress/gzip"
-	"compress/zlib"
 	"fmt"
 	"io"
 	"net/http"
 	"strings"
-	"sync"
 
 	restful "github.com/emicklei/go-restful/v3"
 	"github.com/emicklei/go-restful/v3/zverif/vsched"
@@ -21,97 +17,6 @@ import (
 func init() {
 	e3Scenarios["C13"] = c13Scenarios
 	register("C13", checkC13, e3Replay("C13"))
-}
-
-// ledger is an instrumenting CompressorProvider wrapped around a real provider: held set keyed by
-// object identity; hand-out of a held object, release of an object not held and double release
-// are violations.
-type ledger struct {
-	inner    restful.CompressorProvider
-	mu       sync.Mutex
-	held     map[interface{}]string
-	seen     map[interface{}]bool
-	acquired int
-	released int
-	issues   []string
-}
-
-func newLedger(inner restful.CompressorProvider) *ledger {
-	return &ledger{inner: inner, held: map[interface{}]string{}, seen: map[interface{}]bool{}}
-}
-
-func (l *ledger) acq(o interface{}, kind string) {
-	l.mu.Lock()
-	defer l.mu.Unlock()
-	l.acquired++
-	l.seen[o] = true
-	if k, ok := l.held[o]; ok {
-		l.issues = append(l.issues, fmt.Sprintf("provider handed out a %s that is still in use (held as %s)", kind, k))
-	}
-	l.held[o] = kind
-}
-
-func (l *ledger) rel(o interface{}, kind string) {
-	l.mu.Lock()
-	defer l.mu.Unlock()
-	l.released++
-	if _, ok := l.held[o]; !ok {
-		l.issues = append(l.issues, fmt.Sprintf("release of a %s that is not held (second release?)", kind))
-		return
-	}
-	delete(l.held, o)
-}
-
-func (l *ledger) AcquireGzipWriter() *gzip.Writer {
-	w := l.inner.AcquireGzipWriter()
-	l.acq(w, "gzip.Writer")
-	return w
-}
-func (l *ledger) ReleaseGzipWriter(w *gzip.Writer) {
-	l.rel(w, "gzip.Writer")
-	l.inner.ReleaseGzipWriter(w)
-}
-func (l *ledger) AcquireGzipReader() *gzip.Reader {
-	r := l.inner.AcquireGzipReader()
-	l.acq(r, "gzip.Reader")
-	return r
-}
-func (l *ledger) ReleaseGzipReader(r *gzip.Reader) {
-	l.rel(r, "gzip.Reader")
-	l.inner.ReleaseGzipReader(r)
-}
-func (l *ledger) AcquireZlibWriter() *zlib.Writer {
-	w := l.inner.AcquireZlibWriter()
-	l.acq(w, "zlib.Writer")
-	return w
-}
-func (l *ledger) ReleaseZlibWriter(w *zlib.Writer) {
-	l.rel(w, "zlib.Writer")
-	l.inner.ReleaseZlibWriter(w)
-}
-
-// report returns the ledger's verdict after all threads finished.
-func (l *ledger) report(allFinished bool) []e3Issue {
-	var out []e3Issue
-	for _, s := range l.issues {
-		out = append(out, e3Issue{"oracle:ledger", s})
-	}
-	if allFinished && len(l.held) > 0 {
-		out = append(out, e3Issue{"oracle:ledger", fmt.Sprintf("%d acquired object(s) never released (acquired %d, released %d)", len(l.held), l.acquired, l.released)})
-	}
-	return out
-}
-
-func newProvider(kind string) restful.CompressorProvider {
-	switch kind {
-	case "bounded0":
-		return restful.NewBoundedCachedCompressors(0, 0)
-	case "bounded1":
-		return restful.NewBoundedCachedCompressors(1, 1)
-	case "bounded2":
-		return restful.NewBoundedCachedCompressors(2, 2)
-	}
-	return restful.NewSyncPoolCompessors()
 }
 
 // chunkReader delivers a body in small chunks with a scheduling point before each read.
@@ -138,48 +43,6 @@ func (c *chunkReader) Read(p []byte) (int, error) {
 	return n, nil
 }
 func (c *chunkReader) Close() error { return nil }
-
-func gzipBytes(s string) []byte {
-	var b bytes.Buffer
-	w := gzip.NewWriter(&b)
-	w.Write([]byte(s))
-	w.Close()
-	return b.Bytes()
-}
-
-// decodeBody decodes a recorded response according to its Content-Encoding header.
-func decodeBody(rec *h.Rec) (string, string, error) {
-	enc := rec.Result().Get("Content-Encoding")
-	raw := rec.Buf.Bytes()
-	switch enc {
-	case "":
-		return string(raw), enc, nil
-	case "gzip":
-		zr, err := gzip.NewReader(bytes.NewReader(raw))
-		if err != nil {
-			return "", enc, fmt.Errorf("gzip header: %v (raw %d bytes)", err, len(raw))
-		}
-		zr.Multistream(false)
-		out, err := io.ReadAll(zr)
-		if err != nil {
-			return string(out), enc, fmt.Errorf("gzip body: %v (raw %d bytes)", err, len(raw))
-		}
-		return string(out), enc, nil
-	case "deflate":
-		zr, err := zlib.NewReader(bytes.NewReader(raw))
-		if err != nil {
-			return "", enc, fmt.Errorf("zlib header: %v (raw %d bytes)", err, len(raw))
-		}
-		out, err := io.ReadAll(zr)
-		if err != nil {
-			return string(out), enc, fmt.Errorf("zlib body: %v (raw %d bytes)", err, len(raw))
-		}
-		return string(out), enc, nil
-	}
-	return string(raw), enc, fmt.Errorf("unknown Content-Encoding %q", enc)
-}
-
-type c13Ent struct{ A string }
 
 // ptRec is a recorder whose Write is a scheduling point (a write to the connection may block, so
 // other requests can run in between) and that can be told to fail every write.
@@ -314,7 +177,9 @@ func c13Scenario(provider, kinds string, serve bool, bound int) e3Scenario {
 			for _, b := range x.Blocked {
 				out = append(out, e3Issue{"blocked", fmt.Sprintf("thread %d is blocked inside a provider operation: %s", b.Thread, b.Op)})
 			}
-			out = append(out, led.report(!x.Deadlock)...)
+			for _, m := range led.report(!x.Deadlock) {
+				out = append(out, e3Issue{"oracle:ledger", m})
+			}
 			if x.Deadlock {
 				return out
 			}
